@@ -261,6 +261,9 @@ impl Machine {
 
     fn apply_call_env(&mut self, project: &Project, env: CallEnv) {
         self.calls += 1;
+        // P-Code temporaries (unique space) never live across a call: a call ends the
+        // machine instruction. After a call every temporary is back to "uninitialised".
+        self.vars.retain(|v, _| !v.is_temp);
         if env == CallEnv::Identity {
             return;
         }
